@@ -1006,7 +1006,11 @@ class NestedFrame(pd.DataFrame):
             target_flat = target_flat.set_index(self[target].array.get_list_index())
 
             if target_flat.index.name is None:  # set name if not present
-                target_flat.index.name = "index"
+                # a name no field has: the index is addressed by name as the first sort key
+                index_name = "index"
+                while index_name in target_flat.columns:
+                    index_name = "_" + index_name
+                target_flat.index.name = index_name
             # Index must always be the first sort key for nested columns
             nested_by = [target_flat.index.name] + [".".join(components[1:]) for components in by_components]
 
